@@ -17,7 +17,8 @@ RULE = ("the knut binary built from the working tree, run in a materialised file
         "absent/negative/huge/inverted/malformed on a valid journal; (9%) include graphs over raw files incl. 200-wide and "
         "300-deep ones; (1%) --digits of 5e8..2^31-1 and a daily accrual over years 1..9999.  Spec verdict (Spec.FailSpec.clean_run_b, extracted) on the "
         "observation: class in {OK, ERR}; ERR implies a diagnostic on stderr and, for balance/print/transcode/infer/check, "
-        "empty stdout.  Inside the modelled space the class predicted by the repaired model (Model/CliSafe.v over "
+        "empty stdout; and, when the whole tree is structured, a command that follows includes must not succeed if the "
+        "include graph fails to load (missing/unreadable/unparseable file or a cycle: CliSafe.load_error).  Inside the modelled space the class predicted by the repaired model (Model/CliSafe.v over "
         "Model/Loader.v) must equal the observed class.  Non-trivial: the command got past flag parsing, i.e. the "
         "observation is not a usage error (approximated: the case is not a flag-family case that ended in ERR); distinct by input.")
 
